@@ -139,6 +139,9 @@ func (g *recGun) Shoot(core.Ammo) {
 }
 
 func (g *recGun) Close() error {
+	if g.id < 0 {
+		return nil // never bound (the pool's warm-up gun): not an instance
+	}
 	t := g.r.clk.Now()
 	g.r.mu.Lock()
 	g.r.exits = append(g.r.exits, [2]int64{g.id, t})
